@@ -26,14 +26,14 @@ def gen_cases(tier, rng, cov, plans=PLANS):
         else:
             pick = words if not slow else [w for w in words if len(w) <= 3] + rng.sample([w for w in words if len(w) > 3], 1500)
         for w in pick:
-            cases.append({"name": "lc%d" % len(cases), "plan": plan, "calls": list(w), "concurrent": False, "line_delay_ms": 0})
+            cases.append({"name": "lc%d" % len(cases), "plan": plan, "calls": list(w), "concurrent": False, "line_delay_ms": 0, "line_variant": len(cases)})
     # concurrent mixes: two goroutines, the handshake line delayed so that calls overlap the launch
     nconc = 80 if tier == "quick" else 1200
     for i in range(nconc):
         plan = rng.choice(["ok", "ok", "badline", "exitearly", "silent", "startfails"])
         k = rng.randint(3, 6)
         calls = [rng.choice(OPS[:3] + OPS) for _ in range(k)]
-        cases.append({"name": "lc%d" % len(cases), "plan": plan, "calls": calls, "concurrent": True,
+        cases.append({"name": "lc%d" % len(cases), "plan": plan, "calls": calls, "concurrent": True, "line_variant": len(cases),
                       "line_delay_ms": rng.choice([0, 30, 120])})
     return cases, runs
 
